@@ -52,3 +52,24 @@ func wellFormed(kids []*S, d *D) bool {
 	}
 	return true
 }
+
+// Clone returns a deep copy of a schema forest.
+func Clone(kids []*S) []*S {
+	var out []*S
+	for _, k := range kids {
+		out = append(out, cloneS(k))
+	}
+	return out
+}
+
+// Nodes lists every node of the forest in pre-order (key leaves and case wrappers excepted).
+func Nodes(kids []*S) []*S {
+	var out []*S
+	for _, k := range kids {
+		if !(k.Kind == "leaf" && k.Name == "k") && k.Kind != "case" {
+			out = append(out, k)
+		}
+		out = append(out, Nodes(k.Kids)...)
+	}
+	return out
+}
